@@ -60,9 +60,9 @@ func run(c *vh.Ctx) error {
 	}
 
 	// ---- operation sequences ----------------------------------------------------------------------
-	nSeq := c.N(2500, 26000)
+	nSeq := c.N(2500, 18000)
 	maxOps := c.N(80, 140)
-	tamperBudget := c.N(300, 3000)
+	tamperBudget := c.N(300, 2000)
 	if c.Search {
 		nSeq *= 2
 	}
@@ -129,7 +129,7 @@ func run(c *vh.Ctx) error {
 	}
 
 	// ---- malformed stream: hostile proof stores ----------------------------------------------------
-	nH := c.N(12000, 150000)
+	nH := c.N(12000, 120000)
 	for i := 0; i < nH; i++ {
 		l := genHostileVerify(c.R)
 		before := rn.cnt["rawverify-err"]
